@@ -296,6 +296,31 @@ theorem C07_cx_resolve_underscores : resolveOld [true] [true, true, false] = .er
 
 example : resolve [true] [true, true, false] = .ok ([false], [false]) := by decide
 
+/-! ### resolveSubstitutions -/
+
+theorem resolveSubst_total (n : SNode) (f : SForm) (v : VShape) (c : Crash) : resolveSubst n f v ≠ .error c := by
+  cases n <;> cases f <;> cases v <;> simp [resolveSubst, resolveSubstWith]
+
+/-- Counterexample (replayed: `vars: {x}⏎a: "${x}"` → nil pointer dereference in `resolveSubstitutions`; also as an
+    edge label and as an array element) -/
+theorem C07_cx_subst_novalue_quoted :
+    resolveSubstOld .field .dqWhole .noValue = .error .nilDeref ∧
+    resolveSubstOld .edge .dqPart .noValue = .error .nilDeref ∧
+    resolveSubstOld .arrayElem .dqWhole .noValue = .error .nilDeref := by decide
+
+/-- the old code crashed only there -/
+theorem resolveSubstOld_crash_iff (n : SNode) (f : SForm) (v : VShape) (c : Crash) :
+    resolveSubstOld n f v = .error c ↔ (v = .noValue ∧ (f = .dqWhole ∨ f = .dqPart) ∧ c = .nilDeref) := by
+  cases n <;> cases f <;> cases v <;> cases c <;> simp [resolveSubstOld, resolveSubstWith]
+
+/-! ### DeleteField keyword holder -/
+
+theorem holderEmpty_total (h : Holder) (c : Crash) : holderEmpty h ≠ .error c := by
+  cases h <;> simp [holderEmpty]
+
+/-- Counterexample (replayed: `style: [{a: null}]` → nil pointer dereference in `Map.DeleteField`) -/
+theorem C07_cx_delete_under_array_holder : holderEmptyOld .array = .error .nilDeref := by decide
+
 /-! ### newObject under a class / sql_table object -/
 
 theorem newObject_total (b : Bool) (c : Crash) : newObject b ≠ .error c := by simp [newObject]
